@@ -13,7 +13,10 @@
 //! before any reader runs, ...) likely.  p = c|i|n.  Output per case, one line:
 //!
 //!   <id> ok code=<int|null> out=<null|full|prefix:K|other:L> err=<...> success=<0|1> pid=<gone|alive:S|unknown> t=<ms>
-//!   <id> err kind=<timeout|limit|utf8|spawn|other> stream=<stdout|stderr|-> pid=... t=<ms>
+//!   <id> err kind=<timeout|limit|utf8|spec|spawn|other> stream=<stdout|stderr|-> pid=... t=<ms>
+//!
+//! <timeout_ms> may be "-" (the script never calls timeout_ms()); a trailing token
+//! caps=<field>:<value>,... sets further fields of the host's ProcessCaps.
 //!   <id> panic ...
 //!
 //! What the script sees is taken from Runtime.output / Runtime.errors.  Environment:
@@ -346,7 +349,8 @@ fn one(helper: &str, dir: &str, t: &[&str]) -> String {
     let pin = t[1] == "1";
     let (p1, p2) = (t[2], t[3]);
     let cap: u32 = t[4].parse().unwrap();
-    let timeout: u32 = t[5].parse().unwrap();
+    // "-": the script never calls timeout_ms()
+    let timeout: Option<u32> = if t[5] == "-" { None } else { Some(t[5].parse().unwrap()) };
     let poll: u32 = t[6].parse().unwrap();
     let n1: usize = t[7].parse().unwrap();
     let k1 = t[8].as_bytes()[0];
@@ -367,7 +371,16 @@ fn one(helper: &str, dir: &str, t: &[&str]) -> String {
     for a in [pidfile.as_str(), t[7], t[8], t[9], t[10]].iter().chain(actions.iter()) {
         let _ = writeln!(build, "cmd.arg(\"{a}\")");
     }
-    let _ = writeln!(build, "cmd.stdin_null()");
+    // optional "stdin=<n>": the builder sets a stdin text of n bytes (the helper never reads it)
+    match t.iter().find_map(|w| w.strip_prefix("stdin=")) {
+        Some(n) => {
+            let n: usize = n.parse().unwrap();
+            let _ = writeln!(build, "cmd.stdin_text(\"{}\")", "s".repeat(n));
+        }
+        None => {
+            let _ = writeln!(build, "cmd.stdin_null()");
+        }
+    }
     for (name, p) in [("stdout", p1), ("stderr", p2)] {
         let m = match p {
             "c" => "capture",
@@ -376,7 +389,9 @@ fn one(helper: &str, dir: &str, t: &[&str]) -> String {
         };
         let _ = writeln!(build, "cmd.{name}_{m}()");
     }
-    let _ = writeln!(build, "cmd.timeout_ms({timeout})");
+    if let Some(timeout) = timeout {
+        let _ = writeln!(build, "cmd.timeout_ms({timeout})");
+    }
     // a second, small child (used by churn = second): 7 bytes on stdout, 5 on stderr, both captured
     let mut build2 = String::new();
     let _ = writeln!(build2, "make cmd2 get command(\"{helper}\")");
@@ -391,6 +406,30 @@ fn one(helper: &str, dir: &str, t: &[&str]) -> String {
     let mut caps = ProcessCaps::defaults();
     caps.max_capture_bytes_per_stream = cap;
     caps.wait_poll_ms = poll;
+    // optional "caps=<field>:<value>,..." : every other field of the host's ProcessCaps
+    if let Some(spec) = t.iter().find_map(|w| w.strip_prefix("caps=")) {
+        for kv in spec.split(',') {
+            let (k, v) = kv.split_once(':').expect("caps=<field>:<value>");
+            let v: u32 = v.parse().unwrap();
+            match k {
+                "max_program_bytes" => caps.max_program_bytes = v,
+                "max_cwd_bytes" => caps.max_cwd_bytes = v,
+                "max_args" => caps.max_args = v,
+                "max_arg_bytes" => caps.max_arg_bytes = v,
+                "max_total_arg_bytes" => caps.max_total_arg_bytes = v,
+                "max_env_pairs" => caps.max_env_pairs = v,
+                "max_env_key_bytes" => caps.max_env_key_bytes = v,
+                "max_env_value_bytes" => caps.max_env_value_bytes = v,
+                "max_total_env_bytes" => caps.max_total_env_bytes = v,
+                "max_stdin_bytes" => caps.max_stdin_bytes = v,
+                "max_capture_bytes_per_stream" => caps.max_capture_bytes_per_stream = v,
+                "default_timeout_ms" => caps.default_timeout_ms = v,
+                "max_timeout_ms" => caps.max_timeout_ms = v,
+                "wait_poll_ms" => caps.wait_poll_ms = v,
+                other => return format!("{id} unknown-caps-field {other}"),
+            }
+        }
+    }
     let policy = HostPolicy { allow_process: true, process: caps };
 
     let t0 = Instant::now();
@@ -413,6 +452,7 @@ fn one(helper: &str, dir: &str, t: &[&str]) -> String {
             "Process output limit exceeded" => "limit",
             "Process output no be valid UTF-8" => "utf8",
             "Process spawn failed" => "spawn",
+            "Invalid process configuration" => "spec",
             _ => "other",
         };
         let stream = if kind == "limit" || kind == "utf8" {
@@ -426,7 +466,7 @@ fn one(helper: &str, dir: &str, t: &[&str]) -> String {
         } else {
             "-"
         };
-        let extra = if kind == "other" || kind == "spawn" { format!(" msg=[{msg}: {labels}]") } else { String::new() };
+        let extra = if kind == "other" || kind == "spawn" || kind == "spec" { format!(" msg=[{msg}: {labels}]") } else { String::new() };
         return format!("{id} err kind={kind} stream={stream} outputs={} pid={pid} t={ms}{extra}", obs.outputs.len());
     }
     if obs.outputs.len() != want_outputs {
